@@ -246,6 +246,18 @@ def misread(den, sem):
             if y is None or not isinstance(y["displacement"], list):
                 continue
             vals = [_q(v) for v in d["entries"]]
+            # a jump stands for the default of its entry: no displacement, no rotation (identity in cosines,
+            # 0/90 in degrees), main to auxiliary
+            deg = name.startswith("*")
+            for k, v in enumerate(vals):
+                if v is None:
+                    if k < 3:
+                        vals[k] = Fraction(0)
+                    elif k < 12:
+                        diag = (k - 3) % 4 == 0
+                        vals[k] = Fraction(0 if diag else 90) if deg else Fraction(1 if diag else 0)
+                    else:
+                        vals[k] = Fraction(1)
             if name.startswith("*") != y["degrees"]:
                 out.append(("transform-degrees", w, (name, y["degrees"])))
             if len(vals) not in (3, 12, 13) and len(vals) <= 13:
